@@ -128,15 +128,18 @@ META = {
          "exactly those supplied.",
    note="Not decided: convergence of empirical statistics (statistical); NumPy's generators are assumed to implement the tagged laws."),
  "C10": dict(
-   technique="contract-based deductive verification of the progress lemma of the windowed algorithm (generator contract of "
-             "Alignment.take_until_limit), of the fast job against the contracts of its two callees, and branch-structure (wiring) obligations "
-             "on the window-size plumbing; the loop composition of get_fast_alignment / get_first_window by a bounded stand-in with a stall detector",
-   level="Proved for all inputs: take_until_limit yields at least the leftmost unitary alignment of a non-empty alignment, each yielded value a "
-         "distinct member of it; the fast job returns a partition with the reported disorder on both branches (given the callee contracts) and "
-         "calls the exact algorithm exactly when best_window_size is infinite; measure_best_window_size stores a verdict on both branches. "
-         "Bounded (labelled): termination, partition, disorder >= optimum and == optimum for covering windows of get_fast_alignment itself.",
-   note="Two genuine defects repaired (non-termination on long overlapping units; stale finite window size). Assumed: get_fast_alignment's "
-        "contract at the job's call site, sorted() permutation model, solver contract."),
+   technique="contract-based deductive verification of Continuum.get_fast_alignment (three nested loops: outer variant NumUnits(copy), "
+             "partition invariants over the shrinking copy), of the generator Alignment.take_until_limit (progress lemma), of the fast job, "
+             "and branch-structure (wiring) obligations on the window-size plumbing; get_first_window by an assumed contract plus a "
+             "bounded stand-in with a stall detector",
+   level="Proved for all continua with a unit and all window sizes >= 1, given the assumed contract of get_first_window: the main loop "
+         "terminates (each iteration removes at least one unit: take_until_limit always yields the leftmost unitary alignment, which holds "
+         "a real unit of the copy), the result is a partition of the continuum's own units (each exactly once, slots in annotator order), "
+         "its reported disorder is the sum of its unitary alignments' over x-bar; the fast job calls the exact algorithm exactly when "
+         "best_window_size is infinite and measure_best_window_size stores a verdict on both branches. Bounded (labelled): "
+         "get_first_window, disorder >= optimum, == optimum for covering windows.",
+   note="Two genuine defects repaired (non-termination on long overlapping units; stale finite window size). Assumed: get_first_window's "
+        "contract, sorted() permutation model, solver contract, sortedcontainers model."),
  "C17": dict(
    technique="contract-based deductive verification of Alignment.check / SoftAlignment.check (three argument forms each) and of the "
              "validating constructors, over by-value models of builtin set / Counter and of the nested occurrence table; exceptional "
